@@ -9,18 +9,26 @@ CONFIG = {
             "families: A = statement form x statement form x __all__ variant x back edge (exhaustive), B1-B3 = every import graph (self-imports included) x every order of first import, "
             "D = relative imports (before/after the target is loaded; files, Go modules, missing names; in scripts and bodies), `a as b, b as c` chains in one from-import (importer = the module itself / a module of a cycle / the script), dotted names (known finding C19-K01), E = seeded random bodies over the pool of C extended by those forms; "
             "B4 = every graph over 4 modules (quick: half of the 4096 graphs per seed parity with one seeded order, thorough: all 4096 with six seeded orders), B5 = seeded graphs over 5 modules (quick 300, thorough 25000), C = seeded random bodies (missing modules, files that do not compile, shadowed directory, import __main__); "
-            "non-trivial = at least one import was answered from the store or at least one module body failed; distinct = distinct input lines",
+            "round 3, HISTORIES (the outcome of an import depends on the current state only): a case = initial world + steps executed in order on live contexts: sys.path.append/insert/remove/clear/rebind (absolute, non-existent, relative '.', non-string entries), "
+            "create/replace/replace-by-non-compiling/delete a module file, RunFile of a script living in s, d0 or d1, in context 0 or 1; "
+            "H1-H3 = EVERY scenario of <= 3 steps over a 21-letter alphabet (9 attempts: import / from / star / __import__ / missing name / relative / second module / repair of a missing name through the shared object / import issued from directory d1; 6 sys.path operations; 6 file operations incl. a body that raises by itself and one that raises until its dependency m1 exists), "
+            "H4 = every 4-step scenario (thorough) resp. attempt-change-change-attempt, a quarter per seed (quick); M1-M4 = two contexts over one file system and registry, 13 letters (import m0 / star / import of a Go module whose code imports m0, per context; path ops per context; shared file ops), <= 3 steps exhaustive, 4 steps exhaustive in thorough (an eighth per seed in quick); "
+            "HR = seeded random histories of 4-9 steps (random bodies, 1-2 contexts, scripts from several directories; relative entries only with leaf modules: predicate relSafe); "
+            "evidence key history_matrix = failure kind / what changed before the retry / retry form / retry outcome with case counts; "
+            "non-trivial = at least one import was answered from the store or at least one module body failed (H/M/HR: or an exception was caught); distinct = distinct input lines",
     "trusted_base": [
         "Lean 4.33.0 kernel; axioms allowed: propext, Classical.choice, Quot.sound (audited per theorem on every run)",
         "lean/GPy/C19/Spec.lean: my transcription of Python's import semantics (sys.modules first, built-in finder before path finder, module cached before its code runs and un-cached when the code raises, IMPORT_FROM/IMPORT_STAR binding rules) and the trace predicates ranCount/failedCount/starSpecNames",
         "lean/GPy/C19/Model.lean: hand transliteration of py/import.go ImportModuleLevelObject, py/module.go NewModule/GetModule, stdlib/stdlib.go ModuleInit/ResolveAndCompile, py/run.go RunFile/RunCode, vm/eval.go IMPORT_NAME/IMPORT_FROM/IMPORT_STAR; tied to the repo by the correspondence run, and for the ORDER of the store effects (register / run code / un-register on failure) by the regenerated fact below",
         "verif/extract/importorder (go/ast): regenerates lean/GPy/C19/Generated.lean (effects on the module store in source order, calls inlined) from py/module.go NewModule, stdlib/stdlib.go ModuleInit, py/run.go RunCode, py/import.go ImportModuleLevelObject on every run; fails loudly on unknown shapes (registration inside a conditional, removeModule outside an err != nil branch, store lookup not first); theorem generated_order_is_canonical is the obligation that the order is register, runCode, unregister",
+        "round 3: the extractor also lists every struct field (of the structs declared in py/import.go, py/module.go, py/run.go, stdlib/stdlib.go), package-level variable, string-literal map key and os.* call in the functions reachable BY NAME from ImportModuleLevelObject (over-approximation: e.g. file.Close() pulls in context.Close); Generated.importReads is pinned by decide (import_reads_pinned) against DynProofs.modelledReads, which maps each entry to a component of the model's state",
         "Spec.lean is now related to Model.lean by theorem (model_refines_spec_partial, model_observable_eq_spec_partial): a disagreement model/spec outside C19-K01 can no longer occur; the spec itself stays trusted as the statement of Python's semantics",
+        "lean/GPy/C19/Dyn.lean: the dynamic layer (world = file system + contexts with their own store and sys.path; one run step = runScript of the static model in the environment envNow computed from the CURRENT world) and Spec.step (reference interpreter with an independently written candidate-directory comprehension); path operations follow Python's list semantics (shared by model and spec, checked against gpython's list through the harness)",
         "os.Stat/os.ReadFile find exactly the files the harness wrote; Go map iteration visits every key once (order arbitrary: a model parameter, theorems quantify over it)",
         "harness/c19.go (file layout, ev/ex builtins, canonical rendering re-implemented in Go) and checks/common.py",
     ],
     "assumptions": [
-        "no packages (every module is a plain file or a Go module); dotted names are generated only as failing imports (no file p/q.py exists) and are known finding C19-K01; relative imports raise SystemError (3.4 semantics for a module outside a package); no .pyc files; sys.path holds absolute directories; gpython's sys module has no `modules` attribute, so a module cannot delete itself from the store",
+        "no packages (every module is a plain file or a Go module); dotted names are generated only as failing imports (no file p/q.py exists) and are known finding C19-K01; relative imports raise SystemError (3.4 semantics for a module outside a package); no .pyc files; sys.path holds absolute directories in families A-E; in H/M/HR it is a list of absolute directories, '.', and non-strings (never a non-list: gpython answers ImportError there, CPython TypeError - not generated); a relative entry is resolved against the SCRIPT's directory in the model, which is exact only when no module body imports (relSafe, enforced by the generator); gpython's sys module has no `modules` attribute, so a module cannot delete itself from the store",
         "the Go-map iteration order env.ord keeps the key set (every theorem that mentions it assumes exactly that)",
         "module namespaces hold ints, module references, __all__ lists of strings and Go methods; attribute lookup on a module is lookup in its globals (type attributes such as __class__ are not generated)",
         "statements at module level only (locals = globals); import inside functions is not generated",
@@ -30,6 +38,8 @@ CONFIG = {
     "dist_tokens": 1,
     "case_timeout": 240.0,
     "group": lambda r: r["input"].split(" ")[0],
+    # mutation experiments only: keep the quick bounds although an anchored function changed
+    "no_escalation": bool(os.environ.get("VERIF_NO_ESCALATION")),
 }
 
 
@@ -50,9 +60,65 @@ def pre(run):
                        "note": "NewModule / ModuleInit / RunCode / ImportModuleLevelObject no longer have the shape the order of effects is read from; the theorems are about a stale order"}, nofail=True)
         return
     run.cov["generated_changed_this_run"] = before != open(GEN).read()
+    # goal 2 of round 3: what the import path reads/writes, against the components of the model's state
+    import re
+    gen = open(GEN).read()
+    m = re.search(r"def importReads : List String :=\s*\[(.*?)\]", gen, re.S)
+    got = re.findall(r'"([^"]*)"', m.group(1)) if m else []
+    src = open(os.path.join(common.LEAN, "GPy", "C19", "DynProofs.lean")).read()
+    m = re.search(r"def modelledReads : List \(String × String\) :=\s*\[(.*?)\]\n\n", src, re.S)
+    want = re.findall(r'\("([^"]*)",', m.group(1)) if m else []
+    new = sorted(set(got) - set(want))
+    gone = sorted(set(want) - set(got))
+    run.cov["import_path_reads"] = got
+    if new or gone:
+        run.violation({"kind": "extractor", "broken": "GPy/C19/Props.lean (import_reads_pinned)",
+                       "consulted_by_import_path_but_not_in_model_state": new, "no_longer_consulted": gone,
+                       "note": "the import path of the Go source reads or writes a struct field / package variable / map key / os call that "
+                               "the model's state (Dyn.lean: store, sys.path, file system, importer directory, cwd, registered Go modules) does not account for: "
+                               "a cache or other history-carrying state; add it to the model or remove it from the code"}, nofail=True)
+
+
+def history_matrix(run):
+    """failure kind x what changed before the retry x retry form x outcome, counted over the generated cases"""
+    import collections
+    path = os.path.join(common.WORK, "C19.cases")
+    cells = collections.Counter()
+    kinds, changes, forms = set(), set(), set()
+    ncases = 0
+    try:
+        for line in open(path):
+            f = line.rstrip("\n").split("\t")
+            if len(f) < 5 or not f[0][:1] in "HM":
+                continue
+            ncases += 1
+            for t in f[4].split(","):
+                if t.startswith("mx="):
+                    cells[t[3:]] += 1
+                    k, ch, fo, res = (t[3:].split("/") + ["", "", "", ""])[:4]
+                    kinds.add(k)
+                    if fo != "noretry":
+                        forms.add(fo)
+                        changes.update(ch.split("+"))
+    except OSError:
+        return
+    retried = {k: v for k, v in cells.items() if "/noretry/" not in k}
+    run.cov["history_cases"] = ncases
+    run.cov["history_matrix_axes"] = {"failure_kinds": sorted(kinds), "changes": sorted(changes), "retry_forms": sorted(forms)}
+    run.cov["history_matrix_cells"] = len(retried)
+    run.cov["history_matrix_retry_succeeds"] = sum(v for k, v in retried.items() if k.endswith("/ok"))
+    run.cov["history_matrix_retry_fails_again"] = sum(v for k, v in retried.items() if not k.endswith("/ok"))
+    # kind x single change x form -> outcomes (the compact matrix; cells with several changes are in history_matrix_full)
+    compact = {}
+    for k, v in sorted(retried.items()):
+        kind, ch, fo, res = k.split("/")
+        compact.setdefault(kind, {}).setdefault(ch, {}).setdefault(fo, {})[res] = v
+    run.cov["history_matrix"] = {kind: {ch: fo for ch, fo in chs.items() if "+" not in ch} for kind, chs in compact.items()}
+    run.cov["history_matrix_full"] = dict(sorted(retried.items(), key=lambda kv: -kv[1])[:400])
 
 
 def extra(run):
+    history_matrix(run)
     # scratch directories are removed per case; remove the parent as well
     import shutil
     shutil.rmtree(os.path.join(common.WORK, "c19"), ignore_errors=True)
